@@ -24,11 +24,11 @@ from cocoasm.exceptions import ParseError, TranslationError  # noqa: E402
 assert os.path.abspath(cocoasm.program.__file__).startswith(REPO + os.sep), cocoasm.program.__file__
 
 
-def assemble(lines):
+def assemble(lines, prog=None):
     lines = list(lines)
     ids = [id(x) for x in lines]
     copy = list(lines)
-    prog = cocoasm.program.Program()
+    prog = prog if prog is not None else cocoasm.program.Program()
     out = {}
     try:
         prog.process(lines)
@@ -68,6 +68,8 @@ def serve():
                     os.chdir(workdir)
                 res = []
                 versions = req.get("file_versions") or []
+                # some callers create every Program object up front and process them later
+                made = [cocoasm.program.Program() for _ in req["history"]] if req.get("construct_first") else None
                 for k, p in enumerate(req["history"]):
                     # the user edits a file between two assemblies in the same process: text, or None = delete
                     for name, text in sorted((versions[k] if k < len(versions) and versions[k] else {}).items()):
@@ -80,7 +82,7 @@ def serve():
                     count = (req.get("repeat") or [])[k] if k < len(req.get("repeat") or []) else 1
                     for _ in range(max(1, count) - 1):
                         assemble(p)              # a long-lived process: the same program assembled many times before
-                    res.append(assemble(p))
+                    res.append(assemble(p, made[k] if made else None))
                 data = json.dumps({"results": res, "hashseed": os.environ.get("PYTHONHASHSEED")})
             except BaseException as e:  # noqa
                 data = json.dumps({"error": "%s: %s" % (type(e).__name__, e)})
